@@ -15,7 +15,7 @@ import (
 func init() {
 	register(&Check{
 		ID: "C04", Level: "exploration", QuickSecs: 170, ThoroughSecs: 1500,
-		Rule:        "(i) naming: every pair of rule names from {A, A1, A1_, a, _x, Été, B2} x block positions 1..12 in the first rule (a chain of trivial items before the block) x block position 1 or 2 in the second x block kinds; (ii) scoping: every placement of <= 2 labels and the code blocks of all four kinds over the scope-introducing constructs (rule, choice alternative, label, & !, ? * +, recovery, nested sequence) up to N nodes (quick 4, thorough 5), blocks listing exactly the labels of their scope (reference scope rule); leaf rules with labels inlined by -optimize-grammar; a leaf rule holding blocks of every kind inlined into two or three recursive rules (every copy needs its own methods); (iii-b) optional helpers: 6 orders x 5 subsets of {rule with Unicode classes, rule with a plain class, rule with a state block, left-recursive rule} x 3 flag sets, compiled; (iii) classes: one grammar naming EVERY Unicode class the front-end accepts plus the single-letter classes. For every emitted text (hook build mode, all of them): each block has exactly one on-method and one trampoline, no duplicate method names, no duplicate parameters, parameters = stack keys = labels of the block's scope. For a systematic batch (and every family (i)/(iii) member) x flag combinations of -optimize-parser -optimize-grammar -optimize-basic-latin -support-left-recursion -nolint -cache and -receiver-name {c,p,cur}: the real main() output is written to a scratch module, then ONE gofmt -l, go build ./..., go vet ./... and one binary importing every package whose main calls Parse once per package (package initialisation must not panic; every class resolves). Non-trivial = grammars with >= 2 blocks or >= 1 label in a nested scope.",
+		Rule:        "(i) naming: every pair of rule names from {A, A1, A1_, a, _x, Été, B2} x block positions 1..12 in the first rule (a chain of trivial items before the block) x block position 1 or 2 in the second x block kinds; (ii) scoping: every placement of <= 2 labels and the code blocks of all four kinds over the scope-introducing constructs (rule, choice alternative, label, & !, ? * +, recovery, nested sequence) up to N nodes (quick 4, thorough 5), blocks listing exactly the labels of their scope (reference scope rule); leaf rules with labels inlined by -optimize-grammar; a leaf rule holding blocks of every kind inlined into two or three recursive rules (every copy needs its own methods); (iii-b) optional helpers: 6 orders x 5 subsets of {rule with Unicode classes, rule with a plain class, rule with a state block, left-recursive rule} x 3 flag sets, compiled; (iii) classes: one grammar naming EVERY Unicode class the front-end accepts plus the single-letter classes. For every emitted text (hook build mode, all of them): each block has exactly one on-method and one trampoline, no duplicate method names, no duplicate parameters, parameters = stack keys = labels of the block's scope. For a systematic batch (and every family (i)/(iii) member) x flag combinations of -optimize-parser -optimize-grammar -optimize-basic-latin -support-left-recursion -nolint -cache and -receiver-name {c,p,cur}: the real main() output is written to a scratch module, then ONE gofmt -l, go build ./..., go vet ./... and one binary importing every package whose main calls Parse once per package (package initialisation must not panic; every class resolves). Non-trivial = grammars with >= 2 blocks or >= 1 label in a nested scope. Plus the cross family (cross.go, bodies <= 2 nodes - thorough 3 - x 16 flag sets: structural check on every case, a systematic part compiled). Code the loader refuses is reported only after the real compiler refused it too.",
 		Assumptions: []string{"the Go toolchain (gofmt, go build, go vet) is the judge of 'compiles and vets'", "blocks are well-typed by construction"},
 		Run:         runC04,
 		Post:        postC04,
